@@ -6,8 +6,10 @@
      dir "asc" | "desc";  ie = include empty;  off = offset;  lim = limit or -1.
    Where the property is silent the specification is nondeterministic:
    timestamp ties of a latest-per-key group may be resolved either way; the author
-   filter and the include-empty flag of a latest-per-key query may be applied before
-   or after grouping (the doc comment of Query and the code disagree).          *)
+   filter of a latest-per-key query may be applied before or after grouping (the
+   doc comment of Query and the code disagree).  The include-empty flag is applied
+   after grouping: the statement "the entry with the greatest timestamp among all
+   authors" rules out answering with an older entry when the newest is a marker. *)
 EXTENDS Entries, SequencesExt, TLC
 
 AuthorOk(q, e) == q.a = 0 \/ e.a = q.a
@@ -56,7 +58,9 @@ LatestAllowed(S, q, authorBefore, emptyBefore) ==
 
 ResultOk(S, q, res) ==
   IF q.kind = "flat" THEN res = FlatResult(S, q)
-  ELSE \E ab \in BOOLEAN, eb \in BOOLEAN : res \in LatestAllowed(S, q, ab, eb)
+  ELSE \* the entry with the greatest timestamp among the candidates of a key is selected first; a deletion marker that
+       \* wins its group hides the key unless include_empty is set (it is not replaced by an older entry)
+       \E ab \in BOOLEAN : res \in LatestAllowed(S, q, ab, FALSE)
 
 \* point lookup
 ExactOk(S, a, k, ie, res) ==
